@@ -9,7 +9,7 @@ NOTES = 'Exit codes of ./check: 0 all obligations discharged; 1 VIOLATION (defin
 
 PENDING = 'check not built yet in this session (planned in DESIGN.md section 5)'
 NOT_APPLICABLE = {
-    'C02': PENDING, 'C03': PENDING, 'C06': PENDING, 
+    'C03': PENDING, 'C06': PENDING, 
     'C14': PENDING, 'C15': PENDING, 'C16': PENDING, 'C18': PENDING,
     'C11': 'numerical accuracy of a 1000-bin f32 convolution against an exact enumeration over K^M words: floats are uninterpreted in Verus and the convolution is out of reach of CBMC; no contract within reach expresses or decides it (DESIGN.md 5/C11)',
     'C12': 'HashMap<i64,f64> dynamic programming bounded by exact tail probabilities of the true score distribution: a protocol-level real-number argument (TFM-PVALUE paper), not expressible over the real code with Verus (opaque floats, no HashMap iteration specs) or Kani (unbounded loops over float maps) (DESIGN.md 5/C12)',
@@ -18,6 +18,12 @@ NOT_APPLICABLE = {
 }
 
 CHECKS = {
+    'C02': {
+        'text': 'Unbounded deductive proof (Verus) of Scanner::next on its verbatim body (while loop over blocks + loop over candidate cells): from any state satisfying the representation invariant, a call returns Some(h) where h was pending, is a position in [0, L-M] scoring >= threshold, carries its exact left-to-right f32 score, and is the one element removed from the pending set; or None when the pending set is empty. By induction over calls (histories quantifier) exhaustion yields exactly the hit set, each once, for all sequences, matrices, thresholds, block sizes >= 1 and call interleavings, with no panic (all unwrap/index/overflow obligations discharged for L < M, L = 0, blocks at the wrap-row boundary). Completeness rests on the assumed 8-bit pre-filter property (C08 float half). Natively cross-checked by the replay crate (thorough tier).',
+        'design_ref': 'DESIGN.md section 5, C02; section 8 (defects D1, D2 fixed)',
+        'note': 'Trusted: Verus/Z3; contracts of the dispatched u8 kernel / max / threshold (A-DISP1..3: generic arm proved modulo overflow, AVX2 arm bounded); C08 float half (A-F4); no-NaN hypothesis; extraction rules R4v, W2 logged. Dispatcher arms other than the contract are not distinguished. Python binding: C17.',
+        'technique': 'contract-based deductive verification (Verus, real body extracted per run) with an abstract pending-set invariant',
+    },
     'C10': {
         'text': 'Unbounded deductive proof (Verus) on the verbatim bodies of {Count,Frequency,Weight,Scoring}Matrix::reverse_complement (out[i][k] == m[M-1-i][comp(k)], metadata preserved), plus machine-checked lemmas: rc(rc(M)) == M and the strand lemma (addend j of score(rc M, rc s, L-M-i) is addend M-1-j of score(M, s, i), i.e. equality up to summation order). Complement table facts by a complete Kani harness over the 5 nucleotides.',
         'design_ref': 'DESIGN.md section 5, C10',
